@@ -27,6 +27,8 @@ def valid_docs(rng, n: int) -> list[dict]:
         nk = rng.randint(0, 3)
         rk = [gen.key(j) for j in rng.sample(range(8), nk)]
         kk = [gen.key(j) for j in rng.sample(range(8), rng.randint(0, 2))]
+        if i % 4 == 0 and rk:
+            kk = [rk[0]] + [k_ for k_ in kk if k_ is not rk[0]][:1]        # one holder serving two roles: each role's list is duplicate-free, that is all the schema asks
         typ = rng.choice(["root", "key_mgr"])
         dels = {}
         if rng.random() < 0.8:
